@@ -250,6 +250,15 @@ def run(ctx):
              'disconnects (shared rule)', floor=3)
     from .c11 import r1_sid_tables
     r1_sid_tables(ctx)
+    ctx.rule('C04.R4', 'a refused connection is a disconnect too: every '
+             'refusing path of _handle_connect releases the client, for both '
+             'settings of always_connect - the release is what drops the '
+             'callbacks a connect handler left outstanding, so that a late '
+             'ACK of the refused client completes nothing (shared rule)',
+             floor=20)
+    from .c04 import r4_connect
+    for fam in SA:
+        r4_connect(ctx, fam)
     ctx.assume('histories with reconnects are covered only through table '
                'cleanup at disconnect (C11.R1)')
     ctx.assume('ack ids decoded from the wire are ints (default '
